@@ -26,7 +26,7 @@ import signal
 
 from ..core import Ctx, HarnessError, Result, Violation, chunks, pmap
 from .c18 import (
-    dump_rec, fields_at, instant, iso_setup, month_lengths, read_dump,
+    dump_rec, fields_at, instant, iso_setup, read_dump,
     self_check, tz_minutes, tz_str,
 )
 
@@ -514,6 +514,7 @@ def terms(cfg, quick):
             [('trunc', ('T', 6))],
             [('seq', raw[1], 'std', 'PT12H')],
             [('pt', raw[3], 'std'), ('trunc', ('T', 0))],
+            [('trunc', ('T', 6)), ('trunc', ('T', 18))],
         ]
         if not r['hi_open']:
             ex += [[('pt', last, 'std')],
@@ -522,7 +523,6 @@ def terms(cfg, quick):
         if not quick:
             ex += [
                 [('pt+', raw[0], 'std', '+PT6H')],
-                [('trunc', ('T', 6)), ('trunc', ('T', 18))],
                 [('trunc', ('T', 12))],
                 [('seq', raw[0], 'short', 'P1D')],
                 [('seq', raw[2], 'utc', 'PT18H')],
@@ -1026,6 +1026,8 @@ def run(ctx: Ctx) -> Result:
                 per_sig[b['sig']] = n + 1
                 if n < 3:
                     vios.append(Violation(b['sig'], describe(b), b))
+    for v in vios:
+        v.what += f" [{per_sig[v.signature]} case(s) in this run]"
     need = ['S', 'Rn/S/E', 'S/D', 'D', 'D/E', 'Rn/S', 'Rn/S/D', 'Rn//D',
             'Rn/D/E', 'Rn/D', 'R1', 'R1//E']
     for f in need:
@@ -1041,7 +1043,8 @@ def run(ctx: Ctx) -> Result:
         'states': states,
         'transitions': transitions + single,
         'traces_validated_against_impl': histories + single,
-        'history_depth': depth,
+        'history_depth': 3 if deep else depth,
+        'history_depth_every_sequence': depth,
         'sequences_explored_to_depth_3': deep,
         'single_queries_on_fresh_objects': single,
         'history_transitions': transitions,
